@@ -2,6 +2,11 @@
 pymbolic's CombineMapper) -> coq/gen/GenC18.v
 
 Facts read off the sources (fail-closed):
+  * pymbolic CombineMapper.map_call_with_kwargs hands combine() ONE tuple: the function symbol, the
+    positional parameters, then the values of kw_parameters (in the order of the mapping);
+    IdentityMapper.map_call_with_kwargs visits function, parameters and keyword values in that order and
+    rebuilds the node with the same keys; neither dagrt mapper overrides either method
+    (`callkw_visits`, `collapser_inherits_calls`);
   * pymbolic CombineMapper: which map_* methods pass their single child through
     (`return self.rec(expr.<attr>, *args, **kwargs)`) WITHOUT calling combine();
     whether map_sum/map_product hand combine() a lazy generator (the model pops the
@@ -71,6 +76,10 @@ def combine_mapper_facts():
         raise ShapeError("CombineMapper.map_sum / map_product differ in laziness")
     for name, want in (("map_call", "self.combine((self.rec(expr.function, *args, **kwargs), "
                                     "*[self.rec(child, *args, **kwargs) for child in expr.parameters]))"),
+                       ("map_call_with_kwargs",
+                        "self.combine((self.rec(expr.function, *args, **kwargs), "
+                        "*[self.rec(child, *args, **kwargs) for child in expr.parameters], "
+                        "*[self.rec(child, *args, **kwargs) for child in expr.kw_parameters.values()]))"),
                        ("map_quotient", "self.combine((self.rec(expr.numerator, *args, **kwargs), "
                                         "self.rec(expr.denominator, *args, **kwargs)))"),
                        ("map_power", "self.combine((self.rec(expr.base, *args, **kwargs), "
@@ -79,6 +88,48 @@ def combine_mapper_facts():
         if got != want:
             raise ShapeError("CombineMapper.%s: unrecognised body %r" % (name, got))
     return sorted(passthrough), lazy["map_sum"]
+
+
+# IdentityMapper (base of _ExpressionCollapsingMapper): exact bodies of the two call methods
+IDENTITY_CALL_SHAPES = {
+    "map_call": "function = self.rec(expr.function, *args, **kwargs)\n"
+                "parameters = tuple([self.rec(child, *args, **kwargs) for child in expr.parameters])\n"
+                "if function is expr.function and all((child is orig_child for child, orig_child in "
+                "zip(expr.parameters, parameters, strict=True))):\n    return expr\n"
+                "return type(expr)(function, parameters)",
+    "map_call_with_kwargs":
+        "function = self.rec(expr.function, *args, **kwargs)\n"
+        "parameters = tuple([self.rec(child, *args, **kwargs) for child in expr.parameters])\n"
+        "kw_parameters: Mapping[str, Expression] = constantdict({key: self.rec(val, *args, **kwargs) "
+        "for key, val in expr.kw_parameters.items()})\n"
+        "if function is expr.function and all((child is orig_child for child, orig_child in "
+        "zip(parameters, expr.parameters, strict=True))) and all((kw_parameters[k] is v for k, v in "
+        "expr.kw_parameters.items())):\n    return expr\n"
+        "return type(expr)(function, parameters, kw_parameters)",
+}
+
+# methods of _ExpressionCollapsingMapper (anything else, e.g. an override of a call method, is unmodelled)
+COLLAPSER_METHODS = {"__init__", "__call__", "rec", "map_commut_assoc", "map_product", "map_sum"}
+
+
+def identity_mapper_facts(repo):
+    tree = _pymbolic_mapper_tree()
+    im = _find_class(tree, "IdentityMapper")
+    for name, want in IDENTITY_CALL_SHAPES.items():
+        got = _body_src(_find_def(im, name))
+        if got != want:
+            raise ShapeError("IdentityMapper.%s: unrecognised body %r" % (name, got))
+    cls = _find_class(_parse(repo, "dagrt/expression.py"), "_ExpressionCollapsingMapper")
+    if [_src(b) for b in cls.bases] != ["IdentityMapper"]:
+        raise ShapeError("_ExpressionCollapsingMapper: unexpected bases")
+    for n in cls.body:
+        if isinstance(n, ast.Expr) and isinstance(n.value, ast.Constant):
+            continue
+        if isinstance(n, ast.FunctionDef) and n.name in COLLAPSER_METHODS:
+            continue
+        raise ShapeError("_ExpressionCollapsingMapper: unmodelled class-level statement %r"
+                         % (_src(n).splitlines()[0],))
+    return True
 
 
 FINDER_SHAPES = {
@@ -164,10 +215,17 @@ def generate(repo):
     out = [HEADER % "c18"]
     passthrough, lazy = combine_mapper_facts()
     flag = finder_flag(repo, passthrough)
+    inherits = identity_mapper_facts(repo)
     out.append("(* pymbolic/mapper/__init__.py CombineMapper: methods that recurse without combine() *)")
     out.append("Definition combine_passthrough : list string := %s." % coq_string_list(passthrough))
     out.append("(* CombineMapper.map_sum/map_product pass a generator to combine() *)")
     out.append("Definition combine_sum_lazy : bool := %s." % coq_bool(lazy))
+    out.append("(* CombineMapper.map_call_with_kwargs: what is visited, in order, before combine() pops *)")
+    out.append("Definition callkw_visits : list string := %s."
+               % coq_string_list(["function", "parameters", "kw_parameters.values()"]))
+    out.append("(* IdentityMapper.map_call / map_call_with_kwargs have the modelled bodies and "
+               "_ExpressionCollapsingMapper defines nothing beyond rec/map_commut_assoc/map_sum/map_product *)")
+    out.append("Definition collapser_inherits_calls : bool := %s." % coq_bool(inherits))
     out.append("(* dagrt/expression.py _ConstantFindingMapper overrides all of them with combine() *)")
     out.append("Definition finder_unary_combines : bool := %s." % coq_bool(flag))
     return "\n".join(out) + "\n"
